@@ -529,6 +529,13 @@ class Evaluator:
                 term = as_term(v)
                 for i, e in enumerate(t.elts):
                     self.bind(e, Rat.atom(("item", term, i)), env, ctx, how)
+        elif isinstance(t, ast.Attribute) and isinstance(t.value, ast.Name) and isinstance(env.get(t.value.id), Obj):
+            # field update of a local record object (functional update; aliases are not tracked)
+            o = env[t.value.id]
+            nf = dict(o.fields)
+            nf[t.attr] = v
+            env[t.value.id] = Obj(o.cls, nf)
+            env.pop("@" + ast.unparse(t), None)
         elif isinstance(t, (ast.Attribute, ast.Subscript)):
             if self.effects_mode and ctx.depth == 0:
                 delta = None
